@@ -1,5 +1,9 @@
 // harness commands owned by the check of property C02 (see tools/props/C02.py)
 //
+// c02stack <kb> <src> : `run - <src>` on a thread whose stack has <kb> KiB (the harness's own case threads have 256 MiB,
+//                      which hides host-stack exhaustion by recursive Display / == / mark that the 8 MiB main thread
+//                      of the CLI does not survive).  Records as for `run`; a stack overflow kills the process.
+//
 // c02kind <src>...   : each source defines the global `v`; answers, per source, the KIND of the value the
 //                      implementation really built (variant, plus vec/tuple length or closure arity):
 //                      `K <i> <variant> <n>`  |  `K <i> error`.  The plug-in checks the abstract kind tags of
@@ -45,6 +49,34 @@ pub fn dispatch(cmd: &str, args: &[&str], out: &mut Vec<String>) -> bool {
                         out.push(format!("K {} {} {}", i, k, n));
                     }
                     _ => out.push(format!("K {} error", i)),
+                }
+            }
+            true
+        }
+        "c02stack" => {
+            let kb: usize = args[0].parse().unwrap_or(8192);
+            let src = crate::unhex_str(args[1]);
+            let h = std::thread::Builder::new()
+                .stack_size(kb << 10)
+                .spawn(move || {
+                    let mut lines = Vec::new();
+                    let mut vm = crate::new_vm();
+                    let r = yarel::vm::interpret(&mut vm, src, None);
+                    crate::emit_result(&mut lines, &r);
+                    lines
+                })
+                .unwrap();
+            match h.join() {
+                Ok(lines) => out.extend(lines),
+                Err(p) => {
+                    let msg = if let Some(s) = p.downcast_ref::<String>() {
+                        s.clone()
+                    } else if let Some(s) = p.downcast_ref::<&str>() {
+                        (*s).to_owned()
+                    } else {
+                        "panic".to_owned()
+                    };
+                    out.push(format!("R panic {}", crate::hex(msg.as_bytes())));
                 }
             }
             true
